@@ -42,7 +42,26 @@ type world struct {
 	conn *rconn.Conn
 	done chan error
 	obs  *qeObs
-	beh  map[string]string // request id -> callback behaviour
+	beh  map[string]string // request id -> callback behaviour (guarded by bmu: set by the driver, read by callbacks)
+	bmu  sync.Mutex
+}
+
+func (w *world) setBeh(id, b string) {
+	w.bmu.Lock()
+	w.beh[id] = b
+	w.bmu.Unlock()
+}
+
+func (w *world) getBeh(id string) string {
+	w.bmu.Lock()
+	defer w.bmu.Unlock()
+	return w.beh[id]
+}
+
+func (w *world) behString() string {
+	w.bmu.Lock()
+	defer w.bmu.Unlock()
+	return fmt.Sprint(w.beh)
 }
 
 func listenerCount() int {
@@ -120,7 +139,7 @@ func (w *world) startQuery() bool {
 			o.mu.Lock()
 			o.cblog = append(o.cblog, id)
 			o.mu.Unlock()
-			switch w.beh[id] {
+			switch w.getBeh(id) {
 			case "collection":
 				qr.Collection([]int{1, 2})
 			case "events":
@@ -218,7 +237,7 @@ func (w *world) record(ids []string, failed, expired bool, src string) rec {
 		}
 		replies = append(replies, []interface{}{id, n})
 		if n == 1 {
-			b := w.beh[id]
+			b := w.getBeh(id)
 			switch {
 			case strings.HasPrefix(id, "badjson"):
 				b = "badjson"
@@ -319,7 +338,7 @@ func contentHistory(seed int64) rec {
 		if rng.Intn(12) == 0 {
 			id = fmt.Sprintf("badnoq%d", i+1)
 		}
-		w.beh[id] = b
+		w.setBeh(id, b)
 		ids = append(ids, id)
 		w.sendReq(id)
 	}
@@ -348,13 +367,13 @@ func randomHistory(seed int64, failSub bool) rec {
 		case 1:
 			id = fmt.Sprintf("badnoq%d", i+1)
 		}
-		w.beh[id] = behaviours[rng.Intn(len(behaviours))]
+		w.setBeh(id, behaviours[rng.Intn(len(behaviours))])
 		ids = append(ids, id)
 		w.sendReq(id)
 		time.Sleep(time.Duration(rng.Intn(int(dur)/2+1)))
 	}
 	time.Sleep(dur + 25*time.Millisecond)
-	return w.record(ids, failSub, true, fmt.Sprintf("random history seed %d failSub=%v behaviours=%v", seed, failSub, w.beh))
+	return w.record(ids, failSub, true, fmt.Sprintf("random history seed %d failSub=%v behaviours=%v", seed, failSub, w.behString()))
 }
 
 // groupHistory: the resource's group is kept busy by another resource of the same group while
@@ -463,7 +482,7 @@ func reuseHistory(seed int64) rec {
 		}
 	}
 	oldSubject := w.obs.subject
-	w.beh["a1"] = ""
+	w.setBeh("a1", "")
 	w.sendReq("a1")
 	time.Sleep(3*time.Millisecond + 25*time.Millisecond) // expired, listener gone
 	nlate := 1 + rng.Intn(3)
@@ -472,7 +491,7 @@ func reuseHistory(seed int64) rec {
 		for i := 0; i < nlate; i++ {
 			id := fmt.Sprintf("late%d", i+1)
 			late = append(late, id)
-			w.beh[id] = "events"
+			w.setBeh(id, "events")
 			w.conn.DeliverTo(oldSub, oldSubject, "inbox."+id, []byte(`{"query":"id=`+id+`"}`))
 		}
 	}
@@ -484,7 +503,7 @@ func reuseHistory(seed int64) rec {
 			return nil
 		}
 		id := fmt.Sprintf("b%d", k+1)
-		w.beh[id] = behaviours[rng.Intn(len(behaviours))]
+		w.setBeh(id, behaviours[rng.Intn(len(behaviours))])
 		sent = append(sent, id)
 		w.sendReq(id)
 		time.Sleep(time.Duration(rng.Intn(1500)) * time.Microsecond)
